@@ -38,3 +38,8 @@ func verifLemmaOrigin(base int64, rate int) int64 {
 func verifLemmaIdentity90k(v int64) int64 {
 	return multiplyAndDivide(v, 90000, 90000)
 }
+
+// C09 (L2): a codec survives the fMP4 init segment: FromFMP4(ToFMP4(c)) has the same type and parameters.
+func verifLemmaCodecRoundTrip(c codecs.Codec) codecs.Codec {
+	return codecs.FromFMP4(codecs.ToFMP4(c))
+}
